@@ -97,6 +97,11 @@ class OldView:
         self.__dict__["_snap"] = snap
 
     def __getattr__(self, attr):
+        v = self._old_value(attr)
+        # pre-state views are deep: a.old.self.parent.names is the entry value of the NESTED object's field
+        return OldView(v, {}) if isinstance(v, SObj) else v
+
+    def _old_value(self, attr):
         if attr in self._snap:
             return self._snap[attr]
         entry = self._obj.__dict__.get("_entry", {})
